@@ -514,3 +514,19 @@ def meth_calls_in(path, names):
             elif s[0] == 'call' and s[1][0] == 'ext' and s[1][1].split('.')[-1] in names:
                 out.append(s)
     return out
+
+
+def private_closure(M, roots):
+    """the given functions plus the private helpers of the same class that are called only from them (transitively)"""
+    out = set(roots)
+    changed = True
+    while changed:
+        changed = False
+        for f in M.funcs.values():
+            if f.qn in out or not f.name.startswith('_') or f.name.startswith('__'):
+                continue
+            sites = M.call_sites(f.qn)
+            if sites and all(c.qn in out and c.cls is f.cls for c, n in sites):
+                out.add(f.qn)
+                changed = True
+    return out
